@@ -443,6 +443,16 @@ def source_accounting(prog, chk):
     stale_tests = []
     for (b, i, r, a) in g.eval_sites("asg"):
         lp = path(strip(a.get("lhs"))) or ""
+        if lp.startswith("scanner->") and const(a.get("rhs")) is None and strip(a.get("lhs")).get("k") == "member":
+            # `scanner->f = (<last character> == CR)`: the comparison itself is stored
+            cmp_cr = [y for y in walk(a.get("rhs")) if y.get("k") == "bin" and y.get("op") == "==" and CR in (const(y.get("lhs")), const(y.get("rhs")))]
+            if cmp_cr:
+                late = [(rb, ra) for (rb, ri, ra) in rewrites if b.id in cfgq.reach(g, [rb]) and not (rb == b.id and ri > i)]
+                if late:
+                    stale_tests.append((lp, a.get("l"), late[0][1].get("l")))
+                else:
+                    remembered.append((lp, a.get("l")))
+            continue
         if lp.startswith("scanner->") and const(a.get("rhs")) not in (None, 0):
             # guarded by a test that some character equals CR?
             def is_cr(cnd):
